@@ -220,27 +220,48 @@ Example C18_class_tie_examples :
   let spawn a b := {| e_kind := KSpawn; e_from := nm a; e_to := nm b |} in
   let site f t fl w := {| s_fun := nm f; s_type := nm t; s_field := nm fl; s_write := w |} in
   (* the writer's msgChan arm extracted into a new method *)
-  graph_problems [call "connection.write" "connection.onTerminalMsgEvent"]
+  graph_problems [] [call "connection.write" "connection.onTerminalMsgEvent"]
                  [site "connection.onTerminalMsgEvent" "connection" "filter" false] [] = [] /\
   (* the reader calling curSeq: curSeq is then reached by reader and writer *)
-  List.length (graph_problems [call "connection.write" "connection.curSeq"; call "connection.reader" "connection.curSeq"]
+  List.length (graph_problems [] [call "connection.write" "connection.curSeq"; call "connection.reader" "connection.curSeq"]
                               [site "connection.curSeq" "connection" "platformSerialNumber" true] []) = 1 /\
   (* clear(c.handles) in the Once closure of stop(), which runs in the reader *)
-  List.length (graph_problems [call "connection.reader" "connection.stop"; call "connection.stop" "connection.stop$1"]
+  List.length (graph_problems [] [call "connection.reader" "connection.stop"; call "connection.stop" "connection.stop$1"]
                               [site "connection.stop$1" "connection" "handles" true] []) = 1 /\
   (* a new goroutine *)
-  List.length (graph_problems [spawn "connection.reader" "connection.reader$2"] [] []) = 1 /\
+  List.length (graph_problems [] [spawn "connection.reader" "connection.reader$2"] [] []) = 1 /\
   (* a site in a function nobody is known to call *)
-  List.length (graph_problems [] [site "connection.helper" "connection" "key" false] []) = 1 /\
+  List.length (graph_problems [] [] [] [site "connection.helper" "connection" "key" false] []) = 1 /\
   (* the timer closure reading the writer's record map *)
-  List.length (graph_problems [] [] [{| c_fun := nm "connection.onActiveEvent$1"; c_kind := CKRef;
+  List.length (graph_problems [] [] [] [] [{| c_fun := nm "connection.onActiveEvent$1"; c_kind := CKRef;
                                         c_type := nm "map[uint16]*ActiveMessage"; c_write := false; c_imm := true |}]) = 1 /\
   (* ... while a value fixed before the closure exists, a channel whatever its name, the receiver are fine *)
-  graph_problems [] [] [{| c_fun := nm "connection.onActiveEvent$1"; c_kind := CKBasic; c_type := nm "time.Duration"; c_write := false; c_imm := true |};
+  graph_problems [] [] [] [{| c_fun := nm "connection.onActiveEvent$1"; c_kind := CKBasic; c_type := nm "time.Duration"; c_write := false; c_imm := true |};
                         {| c_fun := nm "sessionManager.leave$1"; c_kind := CKChan; c_type := nm "chanstruct{}"; c_write := false; c_imm := true |};
                         {| c_fun := nm "connection.onActiveEvent$1"; c_kind := CKRef; c_type := nm "*connection"; c_write := false; c_imm := true |}] = [] /\
   (* the join closure keeping the first message instead of its own header copy *)
-  List.length (graph_problems [] [] [{| c_fun := nm "sessionManager.join$1"; c_kind := CKRef; c_type := nm "*Message"; c_write := false; c_imm := true |}]) = 1 /\
+  List.length (graph_problems [] [] [] [] [{| c_fun := nm "sessionManager.join$1"; c_kind := CKRef; c_type := nm "*Message"; c_write := false; c_imm := true |}]) = 1 /\
+  (* stop() handing a method value to sync.Once.Do, which hands the closes on to another new method: call edges *)
+  graph_problems [] [call "connection.reader" "connection.stop"; call "connection.stop" "connection.shutdown";
+                     call "connection.shutdown" "connection.closeInboundChans"]
+                 [site "connection.closeInboundChans" "connection" "activeMsgChan" false; site "connection.shutdown" "connection" "key" false] [] = [] /\
+  (* the `go func` of the timer moved into a new method of the writer: the new goroutine is judged as a timer *)
+  graph_problems [] [call "connection.write" "connection.onActiveEvent"; call "connection.onActiveEvent" "connection.startOvertimeTimer";
+                     spawn "connection.startOvertimeTimer" "connection.startOvertimeTimer$1"]
+                 [site "connection.startOvertimeTimer$1" "connection" "stopChan" false]
+                 [{| c_fun := nm "connection.startOvertimeTimer$1"; c_kind := CKRef; c_type := nm "*connection"; c_write := false; c_imm := true |}] = [] /\
+  List.length (graph_problems [] [call "connection.write" "connection.startOvertimeTimer";
+                                  spawn "connection.startOvertimeTimer" "connection.startOvertimeTimer$1"]
+                              [site "connection.startOvertimeTimer$1" "connection" "platformSerialNumber" false] []) = 1 /\
+  (* a renamed field: sessionManager.operationFuncChan -> opChan (the one field of that struct and type the model misses) *)
+  graph_problems [{| d_struct := nm "sessionManager"; d_field := nm "opChan"; d_type := nm "chansessionOperationFunc" |};
+                  {| d_struct := nm "sessionManager"; d_field := nm "keyFunc"; d_type := nm "func/1/2" |}]
+                 [] [site "newSessionManager" "sessionManager" "opChan" true] [] = [] /\
+  (* ... but not when two fields of one type are unknown at once *)
+  List.length (graph_problems [{| d_struct := nm "connection"; d_field := nm "inbox"; d_type := nm "chan*Message" |};
+                               {| d_struct := nm "connection"; d_field := nm "redo"; d_type := nm "chan*Message" |};
+                               {| d_struct := nm "connection"; d_field := nm "activeMsgCompleteChan"; d_type := nm "chan*Message" |}]
+                              [call "connection.write" "connection.f"] [site "connection.f" "connection" "inbox" false] []) = 1 /\
   (* every root of the class tie is a row of the per-function table, with the same class *)
   forallb (fun r => match lookup_fun String.eqb (fst r) fun_table with Some g => gclass_eqb g (snd r) | None => false end) root_table = true.
 Proof. vm_compute. repeat split. Qed.
